@@ -34,6 +34,8 @@ func checkC15(c *Ctx) {
 	c.Rule("R6", "notification identity: markRemoved on the stored object of every removed address")
 	c.Rule("R7", "overwrite: the previous object of an address is purged from the healthy tiers before the member map is overwritten")
 	c.Rule("R9", "the healthy-hosts snapshot handed out by Healthy() is never written or sorted in place by a reader")
+	c.Rule("R12", "configuration messages are shared and never written in place: a component replaces the pointer it holds")
+	checkConfigObjectsNotWrittenThrough(c, "R12")
 	c.Rule("R8", "tier identity: the healthy tiers are written and purged only with the object the member map stores for the address")
 
 	all := p.Field(hostPkg, "Set", "all")
@@ -1096,12 +1098,19 @@ func (p *Prog) paramOnlyForwarded(fn *ssa.Function, prm *ssa.Parameter, mutators
 // one reader reorders what every other reader sees. Every store into a []*Host element is traced back to where the
 // slice came from (through locals, captured variables and module functions that return the snapshot).
 func checkSnapshotImmutable(c *Ctx, rule string) {
-	p := c.P
-	healthy := p.Func(hostPkg, "(*Set).Healthy")
+	healthy := c.P.Func(hostPkg, "(*Set).Healthy")
 	if healthy == nil {
 		c.Unresolved(rule, "(*Set).Healthy")
 		return
 	}
+	checkSharedListImmutable(c, rule, healthy, "host.Host")
+}
+
+// checkSharedListImmutable: the slice that src returns is shared by all its readers (a published cache); no reader
+// sorts it in place, stores into its elements or uses a sub-slice of it as the destination of append/copy.
+func checkSharedListImmutable(c *Ctx, rule string, healthy *ssa.Function, elemSuffix string) {
+	p := c.P
+	what := "the slice returned by " + fnKey(healthy) + " is shared by all its readers; "
 	// module functions that return the snapshot unchanged
 	returnsSnap := map[*ssa.Function]bool{healthy: true}
 	for changed := true; changed; {
@@ -1218,7 +1227,7 @@ func checkSnapshotImmutable(c *Ctx, rule string) {
 					}
 					if fromSnap(a, 0) {
 						nbad++
-						c.Fail(rule, fmt.Sprintf("snapshot sorted in place in %s", fnKey(fn)), in.Pos(), "the shared healthy-hosts snapshot is handed to an in-place sort: every other reader (balancers, SCAN node order) sees the elements move")
+						c.Fail(rule, fmt.Sprintf("snapshot sorted in place in %s", fnKey(fn)), in.Pos(), what+"it is handed to an in-place sort: every other reader (balancers, SCAN node order) sees the elements move")
 					}
 				}
 			}
@@ -1226,9 +1235,9 @@ func checkSnapshotImmutable(c *Ctx, rule string) {
 			if call, ok := in.(*ssa.Call); ok && (isBuiltin(call, "append") || isBuiltin(call, "copy")) {
 				dst := call.Call.Args[0]
 				if sl, isSl := dst.(*ssa.Slice); isSl && fromSnap(sl.X, 0) {
-					if st2, ok := sl.X.Type().Underlying().(*types.Slice); ok && strings.HasSuffix(types.TypeString(st2.Elem(), nil), "host.Host") {
+					if st2, ok := sl.X.Type().Underlying().(*types.Slice); ok && strings.HasSuffix(types.TypeString(st2.Elem(), nil), elemSuffix) {
 						nbad++
-						c.Fail(rule, fmt.Sprintf("snapshot overwritten by %s in %s", call.Call.Value.Name(), fnKey(fn)), in.Pos(), "a sub-slice of the slice returned by Healthy() is the destination of append/copy: the elements behind it are overwritten in the cache every reader shares - a still-healthy host disappears from the candidate list and another one is listed twice until the next rebuild")
+						c.Fail(rule, fmt.Sprintf("snapshot overwritten by %s in %s", call.Call.Value.Name(), fnKey(fn)), in.Pos(), what+"a sub-slice of it is the destination of append/copy: the elements behind it are overwritten in the cache every reader shares - a still-healthy host disappears from the candidate list and another one is listed twice until the next rebuild")
 					}
 				}
 			}
@@ -1240,12 +1249,12 @@ func checkSnapshotImmutable(c *Ctx, rule string) {
 			if !ok {
 				return
 			}
-			if sl, ok := ia.X.Type().Underlying().(*types.Slice); !ok || !strings.HasSuffix(types.TypeString(sl.Elem(), nil), "host.Host") {
+			if sl, ok := ia.X.Type().Underlying().(*types.Slice); !ok || !strings.HasSuffix(types.TypeString(sl.Elem(), nil), elemSuffix) {
 				return
 			}
 			if fromSnap(ia.X, 0) {
 				nbad++
-				c.Fail(rule, fmt.Sprintf("element of the snapshot written in %s", fnKey(fn)), in.Pos(), "an element of the slice returned by Healthy() is overwritten: that slice is the cache shared by all readers, so the order every balancer and the SCAN node index rely on changes under them (a SCAN in progress continues on a different node)")
+				c.Fail(rule, fmt.Sprintf("element of the snapshot written in %s", fnKey(fn)), in.Pos(), what+"an element of it is overwritten: that slice is the cache shared by all readers, so the order every balancer and the SCAN node index rely on changes under them (a SCAN in progress continues on a different node)")
 			}
 		})
 	}
@@ -1253,7 +1262,7 @@ func checkSnapshotImmutable(c *Ctx, rule string) {
 		c.OK(rule, "no writer of the healthy-hosts snapshot", healthy.Pos(), fmt.Sprintf("%d call sites obtain the snapshot, none stores into it or sorts it in place", n))
 	}
 	if n == 0 {
-		c.Unresolved(rule, "no reader of Healthy()")
+		c.Unresolved(rule, "no reader of "+fnKey(healthy))
 	}
 }
 
@@ -1469,5 +1478,55 @@ func checkHealthStateNotReplaced(c *Ctx, rule string) {
 	}
 	if nbad == 0 {
 		c.OK(rule, "health state set at construction only", token.NoPos, fmt.Sprintf("%d writes of Host.%s, all on freshly constructed hosts", nw, stateF.Name()))
+	}
+}
+
+// checkConfigObjectsNotWrittenThrough (C15.R12): configuration messages (the protobuf types under pb/) are shared - one
+// object is handed to every monitor of a service, and a monitor with invalid settings points at the package-level
+// default. A component replaces the pointer it holds; it never writes through it: `*m.config = *config` changes the
+// thresholds of every other monitor that points at the same object, which then flips hosts after fewer (or more)
+// contrary results than it was configured with.
+func checkConfigObjectsNotWrittenThrough(c *Ctx, rule string) {
+	p := c.P
+	isPB := func(t types.Type) bool {
+		pt, ok := t.Underlying().(*types.Pointer)
+		if !ok {
+			return false
+		}
+		n := namedOf(pt.Elem())
+		return n != nil && n.Obj().Pkg() != nil && strings.HasPrefix(n.Obj().Pkg().Path(), modPath+"/pb/")
+	}
+	n, nbad := 0, 0
+	for _, rel := range []string{"proc/internal/hc", "proc/tcp", "proc/redis", "proc", "host"} {
+		for _, fn := range p.FuncsIn(rel) {
+			if p.isTestFn(fn) {
+				continue
+			}
+			eachInstr(fn, func(_ *ssa.BasicBlock, _ int, in ssa.Instruction) {
+				st, ok := in.(*ssa.Store)
+				if !ok {
+					return
+				}
+				// the address written: the object a configuration pointer field points at, or a field of it
+				addr := st.Addr
+				if fa, isFA := addr.(*ssa.FieldAddr); isFA {
+					addr = fa.X
+				}
+				ld, isLd := addr.(*ssa.UnOp)
+				if !isLd || ld.Op != token.MUL || !isPB(ld.Type()) {
+					return
+				}
+				f, base := fieldAddr(ld.X)
+				if f == nil || isFreshAlloc(base) {
+					return
+				}
+				n++
+				nbad++
+				c.Fail(rule, fmt.Sprintf("%s writes through configuration pointer %s#%d", fnKey(fn), f.Name(), nbad), st.Pos(), "the configuration object that field "+f.Name()+" points at is written in place: the object is shared - the same message is handed to other components, and a component with invalid settings points at the package-level default - so the thresholds of every other monitor pointing at it change as well, and it flips hosts after a different number of contrary results than configured")
+			})
+		}
+	}
+	if nbad == 0 {
+		c.OK(rule, "no store through a configuration pointer", token.NoPos, "components replace the configuration pointer they hold")
 	}
 }
